@@ -2,6 +2,7 @@
 correspondence against layout21raw::Library::{to_proto, from_proto}."""
 import json, os, re, struct
 from vlib import *
+from props.kernelcommon import kernel_tie_leg
 
 # ------------------------------------------------------------------ which exporter does the tree have
 VARIANT_PROBLEMS = []
@@ -494,6 +495,7 @@ def run(chk, replay=None):
     chk.proof_leg(["Raw/RawProtoCheck.vo"], "Properties/C14.v",
                   ["Raw/RawProtoBase_proofs.v", "Raw/RawProtoImport_proofs.v", "Raw/RawProtoOrder_proofs.v", "Raw/RawProtoTotal_proofs.v",
                    "Raw/RawProtoExport_proofs.v", "Raw/RawProtoBack_proofs.v", "Raw/RawProto_proofs.v"], "Properties.C14")
+    kernel_tie_leg(chk, "raw_proto")       # generated-from-source kernels = the model functions (Properties/KernelsRaw2.v)
     chk.assumptions += [
         "Ptr<Cell> targets are indices into the library's own cell list (libraries closed under instantiation); locks not modelled",
         "LayerKey = slot index (no layer is ever removed); Layers.nums/names and Layer.purps/nums are derived from the sequence of add / add_purpose calls",
